@@ -227,9 +227,69 @@ def real_stacks(tier):
             ch.close()
 
 
+TWIN_SRC = """import contextlib
+@contextlib.contextmanager
+def res(tag):
+    yield tag
+def inner():
+    with res("r") as r:
+        yield r
+def job():
+    x = 1
+    yield from inner()
+"""
+
+
+def twin_stacks(order):
+    """The same source text compiled under several file names (vendored copies, files made from one template): the
+    code objects are equal by value but every frame must be summarised under its own file name. `order` = the sequence of
+    file indices in which the suspended generators are extracted and summarised."""
+    import stackscope
+    gens = {}
+    for i in sorted(set(order)):
+        fname = "<c19 twin %d>" % i
+        linecache.cache[fname] = (len(TWIN_SRC), None, TWIN_SRC.splitlines(True), fname)
+        ns = {"__name__": "c19twin%d" % i}
+        exec(compile(TWIN_SRC, fname, "exec"), ns)
+        g = ns["job"]()
+        next(g)
+        gens[i] = g
+    for i in order:
+        with warnings.catch_warnings():
+            warnings.simplefilter("ignore")
+            yield stackscope.extract(gens[i])
+    for g in gens.values():
+        g.close()
+
+
+def check_twins(order, problems):
+    n = 0
+    for k, st in enumerate(twin_stacks(order)):
+        fnames = set(f.pyframe.f_code.co_filename for f in st.frames)
+        if fnames != {"<c19 twin %d>" % order[k]} or len(st.frames) != 2:
+            problems.append("twin extraction %d of %r is not the expected two-frame stack: %r" % (k, order, st))
+            continue
+        before = len(problems)
+        n += check(st, problems)
+        for j in range(before, len(problems)):
+            problems[j] = "[file %d, step %d of order %r] %s" % (order[k], k, order, problems[j])
+    return n
+
+
 def run(ctx):
     c18.world()
     idx = 0
+    for order in itertools.chain.from_iterable(itertools.product(range(3), repeat=r) for r in (2, 3)):
+        idx += 1
+        if not ctx.mine(idx):
+            continue
+        problems = []
+        n = check_twins(list(order), problems)
+        ctx.count("evaluations", n)
+        ctx.count("distinct_nontrivial")
+        ctx.count("twin_file_orders")
+        if problems:
+            ctx.violation({"leg": "twins", "order": list(order)}, "; ".join(problems)[:1500], "twins")
     for spec in itertools.chain(c18.part1(), c18.part2(bounds(ctx.tier)["tree_depth"])):
         idx += 1
         if not ctx.mine(idx):
@@ -262,7 +322,9 @@ def run(ctx):
 def replay(case):
     c18.world()
     problems = []
-    if case.get("leg") == "tree":
+    if case.get("leg") == "twins":
+        check_twins(case["order"], problems)
+    elif case.get("leg") == "tree":
         check(c18.mk_stack(case["spec"]), problems, (None, 0, 1, -1))
     else:
         for c, st in real_stacks("quick"):
